@@ -22,6 +22,27 @@ type vRealStep struct {
 }
 
 func verifPrepareReal(steps []vRealStep, outputs map[string]any) *executableWorkflow {
+	var specs []VerifStep
+	for _, s := range steps {
+		rn, err := plugin.VerifProvider(s.env).LoadSchema(map[string]any{"plugin": map[string]any{"src": "image", "deployment_type": "builtin"}}, nil)
+		verifrt.Assert(err == nil, "harness: LoadSchema of the real provider succeeds")
+		specs = append(specs, VerifStep{ID: s.id, Runnable: rn, RunData: map[string]any{"step": "wait"}, Fields: s.fields})
+	}
+	return verifPrepareRunnables(specs, outputs)
+}
+
+// VerifStep describes one step of a composition harness: a real (or stub) runnable step, the run data
+// its Lifecycle()/Start() get, and the step's fields in the workflow (expressions or literals).
+type VerifStep struct {
+	ID       string
+	Runnable step.RunnableStep
+	RunData  map[string]any
+	Fields   map[string]any
+}
+
+// verifPrepareRunnables builds the prepared workflow the way Prepare does from the runnables' real
+// lifecycles: stage nodes, dependency wiring (real connectStepDependencies / prepareDependencies), outputs.
+func verifPrepareRunnables(steps []VerifStep, outputs map[string]any) *executableWorkflow {
 	e := &executor{logger: vLogger{}, config: &config.Config{}}
 	dag := dgraph.New[*DAGItem]()
 	_, err := dag.AddNode(WorkflowInputKey, &DAGItem{Kind: DAGItemKindInput})
@@ -32,18 +53,16 @@ func verifPrepareReal(steps []vRealStep, outputs map[string]any) *executableWork
 	runData := map[string]map[string]any{}
 	for _, s := range steps {
 		data := map[any]any{}
-		for k, v := range s.fields {
+		for k, v := range s.Fields {
 			data[k] = v
 		}
-		wf.Steps[s.id] = data
-		rn, err := plugin.VerifProvider(s.env).LoadSchema(map[string]any{"plugin": map[string]any{"src": "image", "deployment_type": "builtin"}}, nil)
-		verifrt.Assert(err == nil, "harness: LoadSchema of the real provider succeeds")
-		life, err := rn.Lifecycle(map[string]any{"step": "wait"})
+		wf.Steps[s.ID] = data
+		life, err := s.Runnable.Lifecycle(s.RunData)
 		verifrt.Assert(err == nil, "harness: real Lifecycle() succeeds")
-		runnables[s.id] = rn
-		lifecycles[s.id] = life
-		runData[s.id] = map[string]any{"step": "wait"}
-		_, err = e.buildOutputProperties(life, s.id, rn, dag)
+		runnables[s.ID] = s.Runnable
+		lifecycles[s.ID] = life
+		runData[s.ID] = s.RunData
+		_, err = e.buildOutputProperties(life, s.ID, s.Runnable, dag)
 		verifrt.Assert(err == nil, "harness: stage nodes added")
 	}
 	err = e.connectStepDependencies(wf, nil, lifecycles, dag, nil)
@@ -60,6 +79,33 @@ func verifPrepareReal(steps []vRealStep, outputs map[string]any) *executableWork
 	}
 	return &executableWorkflow{logger: vLogger{}, config: &config.Config{}, dag: dag, input: &vScope{},
 		stepRunData: runData, runnableSteps: runnables, lifecycles: lifecycles, outputSchema: outSchemas}
+}
+
+// ---- exported entry points for composition harnesses that live in the step packages
+// (internal/step/foreach imports this package, so its harness cannot be written here)
+
+// VerifExpr is a reference expression $.path[0].path[1]... of the harness expression stub.
+func VerifExpr(path ...any) any { return vx(path...) }
+
+// VerifPrepared is a prepared workflow assembled by VerifPrepareSteps.
+type VerifPrepared struct{ ew *executableWorkflow }
+
+func VerifPrepareSteps(steps []VerifStep, outputs map[string]any) VerifPrepared {
+	return VerifPrepared{ew: verifPrepareRunnables(steps, outputs)}
+}
+
+// VerifRunResult: what Execute returned, or Stuck if it had not returned when nothing could move any more.
+type VerifRunResult struct {
+	ID    string
+	Data  any
+	Err   error
+	Stuck bool
+}
+
+// VerifRun runs the real Execute with the quiescence watchdog of the run-loop harnesses.
+func VerifRun(p VerifPrepared, input any) VerifRunResult {
+	res := verifExecute(p.ew, newRun(), tWorkflow{}, input)
+	return VerifRunResult{ID: res.id, Data: res.data, Err: res.err, Stuck: res.stuck}
 }
 
 // C09 / composition: a healthy two-step chain of REAL plugin steps always returns its success output,
